@@ -86,7 +86,16 @@ func (c *Initiator) Serve() error {
 		for {
 			select {
 			case <-c.ctx.Done():
-				return nil
+				// The connection is gone, but the handler may be in the middle of sending
+				// (a reply produced by its processing loop, for instance). Keep consuming,
+				// so that it is not blocked and can take the stop signal, until it has stopped.
+				for {
+					select {
+					case <-c.handler.Outgoing():
+					case <-c.handler.Context().Done():
+						return nil
+					}
+				}
 
 			case msg, ok := <-c.handler.Outgoing():
 				if !ok {
